@@ -363,7 +363,7 @@ func typeAssert(n *node, withResult, withOk bool) {
 				var meth0 string
 				meth0, ok = m0[k]
 				if !ok {
-					return next
+					break
 				}
 				// As far as we know this equality check can fail because they are two ways to
 				// represent the signature of a method: one where the receiver appears before the
@@ -376,20 +376,26 @@ func typeAssert(n *node, withResult, withOk bool) {
 				tm := lookupFieldOrMethod(v.node.typ, k)
 				if tm == nil {
 					ok = false
-					return next
+					break
 				}
 
 				var err error
 				meth0, err = stripReceiverFromArgs(meth0)
 				if err != nil {
 					ok = false
-					return next
+					break
 				}
 
 				if meth0 != meth1 {
 					ok = false
-					return next
+					break
 				}
+			}
+			if !ok {
+				if !withOk {
+					panic(n.cfgErrorf("interface conversion: %v is not %v", v.node.typ.id(), typID))
+				}
+				return next
 			}
 
 			if withResult {
